@@ -26,11 +26,11 @@ func (t *Tiff) parse(p property) error {
 	case xmpns.Model:
 		t.Model = parseString(p.Value())
 	case xmpns.ImageWidth:
-		t.ImageWidth = uint16(parseUint(p.Value()))
+		t.ImageWidth = parseUint16(p.Value())
 	case xmpns.ImageLength:
-		t.ImageLength = uint16(parseUint(p.Value()))
+		t.ImageLength = parseUint16(p.Value())
 	case xmpns.Orientation:
-		t.Orientation = meta.Orientation(parseUint(p.Value()))
+		t.Orientation = meta.Orientation(parseUint16(p.Value()))
 	default:
 		return ErrPropertyNotSet
 	}
